@@ -359,3 +359,61 @@ package sse
 //@   site each0 ordered: forall(c, old(ncalls())+1, ncalls()-1, citer(c) < citer(c+1))
 //@   site each0 covered: forall(j, 0, iterk, intersects(subscription.Topics, v.messages.buf[ringidx(i, len(v.messages.buf), j)].topics) && v.messages.buf[ringidx(i, len(v.messages.buf), j)].exp > now ==>
 //@       old(ncalls()) < callat(j) && callat(j) < ncalls() && citer(callat(j)) == j)
+
+//@ func messageField.UnmarshalText
+//@   requires i != nil
+//@   modifies *i
+//@   ensures accepted: singleLine(data) ==> result == nil && i.set && i.value == data
+//@   ensures rejected: !singleLine(data) ==> result != nil && !i.set && i.value == ""
+
+//@ func messageField.UnmarshalJSON
+//@   requires i != nil
+//@   modifies *i
+//@   ensures set_implies_single_line: i.set ==> singleLine(i.value) && result == nil
+//@   ensures error_leaves_unset: result != nil ==> !i.set && i.value == ""
+//@   ensures null_is_unset: data == "null" ==> result == nil && !i.set
+
+//@ func messageField.Scan
+//@   requires i != nil
+//@   modifies *i
+//@   ensures nil_is_unset: src == nil ==> result == nil && !i.set && i.value == ""
+//@   ensures single_line_accepted: (hastype(src, "string") || hastype(src, "[]byte")) && singleLine(asstr(src)) ==> result == nil && i.set && i.value == asstr(src)
+//@   ensures multi_line_rejected: (hastype(src, "string") || hastype(src, "[]byte")) && !singleLine(asstr(src)) ==> result != nil && !i.set
+//@   ensures other_types_rejected: src != nil && !hastype(src, "string") && !hastype(src, "[]byte") ==> result != nil && !i.set
+//@   ensures set_implies_single_line: i.set ==> singleLine(i.value)
+
+//@ pure fieldwf(x) = (x.set ==> singleLine(x.value)) && (!x.set ==> x.value == "")
+//@ pure chunkswf(e) = forall(k, 0, len(e.chunks), singleLine(e.chunks[k].content))
+
+//@ func Message.reset
+//@   requires e != nil
+//@   modifies *e
+//@   ensures cleared: len(e.chunks) == 0 && !e.ID.set && e.ID.value == "" && !e.Type.set && e.Type.value == "" && e.Retry == 0
+
+//@ func Message.UnmarshalText
+//@   requires e != nil
+//@   modifies *e
+//@   ensures id_single_line: fieldwf(e.ID)
+//@   ensures type_single_line: fieldwf(e.Type)
+//@   ensures chunks_single_line: chunkswf(e)
+//@   ensures success_has_a_field: result == nil ==> len(e.chunks) > 0 || e.Type.set || e.Retry != 0 || e.ID.set
+//@   invariant 0 fields_single_line: fieldwf(e.ID) && fieldwf(e.Type) && chunkswf(e)
+//@   invariant 0 parser_alive: s != nil && s.keepComments
+
+// ---------------------------------------------------------------------------------------------------------
+// session.go (C14: Last-Event-ID route; C16 below)
+// ---------------------------------------------------------------------------------------------------------
+
+//@ pure lastid(r) = r.Header["Last-Event-Id"]
+//@ pure sentid(r) = has(r.Header, "Last-Event-Id") && len(lastid(r)) != 0 && lastid(r)[0] != ""
+
+//@ func Upgrade
+//@   requires r != nil
+//@   ensures unsupported_writer: iff(result1 != nil, result == nil) && (result1 != nil ==> result1 == ErrUpgradeUnsupported)
+//@   ensures id_single_line: result != nil ==> fieldwf(result.LastEventID)
+//@   ensures id_from_header: result != nil && sentid(r) && singleLine(lastid(r)[0]) ==> result.LastEventID.set && result.LastEventID.value == lastid(r)[0]
+//@   ensures id_unset_when_absent_empty_or_invalid: result != nil && !(sentid(r) && singleLine(lastid(r)[0])) ==> !result.LastEventID.set
+//@   ensures session_fields: result != nil ==> result.Req == r && !result.didUpgrade && fresh(result)
+
+//@ func getResponseWriter
+//@   ensures wraps_a_flusher: result != nil ==> hasdyn(result, "flusherErrorWrapper") || hasdyn(result, "flusherWrapper")
